@@ -1,6 +1,8 @@
 from core import Case, hexs
+import core
 PID = "C16"
 DRIVER = "drv_heap"
+MATRIX = core.MATRIX_ZEROING     # thorough tier: -O0/-O2/-O3, clang, explicit_bzero on/off, mlock on/off
 RULE = ("operation histories on two real secure_buffer<uint8_t, LockOnAlloc> objects (both template variants) with operator new/delete interposed: contents of both "
         "variables after every operation vs the heap model, every block scanned at delete (only poison or zero bytes allowed), the caller's rvalue string inspected "
         "(object bytes and heap buffer); ops: ctor(n), adopt vector (with slack), from rvalue string, copy/move assignment, copy construction, self assignment, resize "
